@@ -17,7 +17,7 @@ import (
 // C03: the hook sees exactly the children the parent owns, in the documented shape (DESIGN §4 C03).
 // One sync per case; the expected view is computed independently from the cache content.
 
-var c03Roles = []string{"absent", "owned+marker", "owned-nomarker", "owned-othermarker", "foreign-owned+marker", "orphan+marker", "owned+marker+extra-owner", "owned+marker-deleting"}
+var c03Roles = []string{"absent", "owned+marker", "owned-nomarker", "owned-othermarker", "foreign-owned+marker", "orphan+marker", "owned+marker+extra-owner", "owned+marker-deleting", "plain-owner+foreign-controller+marker"}
 
 type c03Slot struct {
 	Role string
@@ -101,6 +101,9 @@ func c03Run(c c03Case) []mc.Finding {
 			kit.Ann(o, marker, "dc")
 		case "owned+marker+extra-owner":
 			kit.Ann(kit.Owners(o, kit.OwnerRef(kit.Other, "x", "xuid", false), ours), marker, "dc")
+		case "plain-owner+foreign-controller+marker":
+			// shared attachment: the target is listed as a plain owner, the controller is another object
+			kit.Ann(kit.Owners(o, kit.OwnerRef(pk, "q", "quid", true), kit.OwnerRef(pk, "p", "puid", false)), marker, "dc")
 		case "owned+marker-deleting":
 			kit.Deleting(kit.Finalizers(kit.Ann(kit.Owners(o, ours), marker, "dc"), "ex.io/hold"))
 		}
